@@ -77,7 +77,7 @@ class C07:
             "titled sections, includes, pointer options, annotations, free-form keys) is cut after every token and has "
             "every token replaced by each of 12 corruptions, with and without search path / CFGF_COMMENTS, via buffer and "
             "file; Hypothesis adds generated texts with random cuts/corruptions; (b) API histories: all sequences up to "
-            "depth 2 (quick) / 3 (thorough) over a fixed alphabet of calls plus random histories up to length 10. "
+            "depth 2 (quick) / 3 (thorough) over a fixed alphabet of calls (incl. CFG_SIMPLE_* string and integer options) plus random histories up to length 10. "
             "Oracle after cfg_free: allocation balance of confuse.c+lexer.c = 0, open streams = 0, descriptor count as "
             "before, every pointer value released exactly once, no sanitizer report. Non-trivial = abort point inside a "
             "function-call argument list, list, nested section, title or included file, or a history with remove-after-"
